@@ -527,7 +527,40 @@ class PropertyCheck:
         return 1 if self.violations else 0
 
 
+def replay(path):
+    """re-execute a replay file against the current /repo"""
+    with open(path if os.path.isabs(path) else os.path.join(VERIF, path)) as f:
+        rec = json.load(f)
+    print(f"replay of {rec.get('obligation')} (property {rec.get('property')}, found by {rec.get('found_by')})")
+    cc = rec.get("concrete_call") or {}
+    if "function" in cc and "args" in cc:
+        sys.path.insert(0, VERIF)
+        for area in ("varint", "single", "frame", "names", "time", "msgload"):
+            mod = load_area(area)
+            for c in mod.CONTRACTS:
+                if c.qualname == cc["function"] and not c.assumed:
+                    spec_modules = getattr(mod, "SPEC_MODULES", ("wire",))
+                    r = native_run([{"contract": contract_to_native(c), "args": cc["args"]}], spec_modules)[0]
+                    print(json.dumps({"call": cc, "result": r}, indent=1, default=str))
+                    print("REPRODUCED" if r["status"] == "violated" else "NOT-REPRODUCED")
+                    return 0 if r["status"] != "violated" else 1
+        print("function not found among the contracts")
+        return 3
+    if "config" in cc and "schedule" in cc:
+        env = dict(os.environ, PYTHONPATH=VERIF)
+        p = subprocess.run([VENV_PY, "-m", "standin_misc.sched", "--replay", json.dumps({"config": cc["config"], "schedule": cc["schedule"]})],
+                           cwd=VERIF, env=env, capture_output=True, text=True)
+        print(p.stdout[-3000:])
+        return 0
+    print(json.dumps(rec, indent=1, default=str)[:4000])
+    print("(no directly executable call in this replay file: the record above carries the failed obligation, the solver's "
+          "model / the stand-in case; re-run the property's check to re-evaluate it)")
+    return 0
+
+
 def main(argv):
+    if argv and argv[0] == "replay":
+        return replay(argv[1])
     import argparse
     ap = argparse.ArgumentParser()
     ap.add_argument("prop")
